@@ -12,7 +12,7 @@ RULE = ("one file receives generated scientific datasets (written by DFSDadddata
         "calls; 7 number types, rank 1..3, optional label/unit/format strings, fill value, range, dimension scale), "
         "8-bit rasters (DFR8 with/without palette and RLE, or GR 1-component with/without LUT and RLE/deflate), "
         "24-bit rasters (DF24 in pixel/line/plane interlace, or GR 3-component in the three interlaces) and file "
-        "annotations (DFAN or AN), appended in generated order by different interfaces; optionally a 16-bit GR image "
+        "annotations (DFAN or AN), appended in generated order by different interfaces (DFSD also reads a generated window of every dataset through DFSDreadslab/DFSDgetslice); optionally a 16-bit GR image "
         "(which GR alone presents and which must stay intact) and later sessions in which GR gives one of its 8-bit "
         "images a first palette or an attribute. Every object is then read "
         "in fresh processes through every interface able to address it (SD, DFSD, nc*, V-level view of SD and GR "
@@ -100,7 +100,7 @@ def strategy_(draw, tier):
         if how == "attr" or (how == "lut" and not it["pal"]):
             at = draw(st.integers(seq.index(it) + 1, len(seq)))
             seq.insert(at, dict(kind="edit", w="gr", target=it["name"], how=how))
-    return {"items": seq, "reqil": draw(st.integers(0, 2))}
+    return {"items": seq, "reqil": draw(st.integers(0, 2)), "slabw": [draw(st.integers(0, 30)) for _ in range(7)]}
 
 
 def strategy(tier):
@@ -725,6 +725,24 @@ def check(case, d, labels, excluded, known_keys):
             rl.append((e, ln, isz))
         qq = run(q, cwd=d, timeout=60)
         crash(qq, "DFSD", q)
+        # second pass: a generated window of every dataset through DFSDreadslab / DFSDgetslice (1-based start)
+        w_ = case.get("slabw") or [0] * 7
+        q2 = Prog()
+        for e, ln, isz in rl:
+            dm = e["dims"]
+            if not dm or min(dm) < 1 or len(dm) > 3:
+                continue
+            st0 = [w_[j] % dm[j] for j in range(len(dm))]
+            cn0 = [1 + w_[j + 3] % (dm[j] - st0[j]) for j in range(len(dm))]
+            q2.call("i", "DFSDgetdims", F, Out(4), Out(4 * 8), 8)
+            nb_ = max(int(np.prod(cn0)) * isz, 1)
+            if w_[6] % 2 == 0:
+                l_ = q2.call("i", "DFSDreadslab", F, i32s(*[x + 1 for x in st0]), i32s(*cn0), i32s(*([1] * len(dm))), Out(nb_), i32s(*cn0))
+            else:
+                l_ = q2.call("i", "DFSDgetslice", F, i32s(*[x + 1 for x in st0]), i32s(*cn0), Out(nb_), i32s(*cn0))
+            ln["slab"] = (l_, st0, cn0)
+        qq2 = run(q2, cwd=d, timeout=60)
+        crash(qq2, "DFSD (slabs)", q2)
         pos = 0
         for it in ([] if skip_dfsd else sds):
             cross("dfsd" if it["w"].startswith("dfsd") else it["w"], "dfsd")
@@ -741,6 +759,15 @@ def check(case, d, labels, excluded, known_keys):
                 raise Fail("DFSD does not present a dataset with the dimensions, type and values %s wrote" % it["w"],
                            dims=it["dims"], nt=it["nt"], presented=seqd, program=prog)
             e, ln = hit
+            if "slab" in ln:
+                l_, st0, cn0 = ln["slab"]
+                want = np.asarray(it["data"]).reshape(it["dims"])[tuple(slice(a_, a_ + c_) for a_, c_ in zip(st0, cn0))]
+                if qq2.res[l_].ret != 0 or qq2.res[l_].bufs[0] != np.ascontiguousarray(want).tobytes():
+                    raise Fail("a window read through DFSDreadslab/DFSDgetslice differs from the values %s wrote" % it["w"],
+                               dims=it["dims"], start=st0, count=cn0, ret=qq2.res[l_].ret,
+                               call="DFSDreadslab" if w_[6] % 2 == 0 else "DFSDgetslice", program=prog)
+                if any(c_ < d_ for c_, d_ in zip(cn0, it["dims"])):
+                    labels.add("dfsd_partial_window")
             k = items.index(it)
             later_sd = any(o["w"] == "sd" for o in sds[sds.index(it) + 1:])
             if not it["w"].startswith("dfsd") or later_sd:
